@@ -270,7 +270,16 @@ def consume_local(body, l, ty, depth=0):
             elif cc.callee == 'std::mem::drop' or (cc.callee or '').endswith('::forget'):
                 classes.append(('dropped', 'explicitly dropped at %s' % cc.where()))
             else:
-                classes.append(('passed', 'passed to %s' % (cc.rdef or cc.callee)))
+                # handed to a helper of this crate: judged by what the helper does with that parameter
+                prog = getattr(body.facts, '_prog', None)
+                g = prog.by_id.get(cc.ruid) if prog is not None and cc.ruid else None
+                if g is not None and not proj and argk < g.arg_count and depth < 8 and g.id != body.id:
+                    sub = consume_local(g, argk + 1, ty, depth + 4)
+                    if sub[0] == 'tail':
+                        sub = consume(body, cc, depth + 4)
+                    classes.append((sub[0], 'in helper %s: %s' % (g.name, sub[1])))
+                else:
+                    classes.append(('passed', 'passed to %s' % (cc.rdef or cc.callee)))
         elif k == 'ref':
             # &L passed to a test?
             rl = how[1]
